@@ -18,6 +18,9 @@ func init() {
 }
 
 func runC03(c *Ctx) {
+	// what a block is verified against (generator list, BFT parameters) is read from the store of the
+	// branch being processed; memory kept in the BFT module across blocks survives a revert
+	checkModuleStateless(c, "C03.D1 module-holds-no-state")
 	p := c.P
 	c.Assume = append(c.Assume, "sufficiency of the checks (slot arithmetic, signature maths, application behaviour) is not decided", "the ABI boundary is opaque: what the application does on Verify/Execute is outside this analysis")
 	verify := c.Anchor("pkg/consensus.(*Executer).verifyBlock")
